@@ -130,6 +130,14 @@ def strategy(tier):
     @st.composite
     def _s(draw):
         tie = draw(st.booleans())
+        if draw(st.integers(0, 5)) == 0:
+            case = draw(gen.fork_case())
+            n = len(case["graph"])
+            case["perm"] = {"nodes": list(draw(st.permutations(list(range(n))))),
+                            "nbr_rot": [draw(st.integers(0, 3)) for _ in range(n)],
+                            "nbr_rev": [draw(st.booleans()) for _ in range(n)]}
+            case["unique"] = False
+            return case
         case = draw(common.mixed_case(tier, ne_share=3,
                                       graph_kw={"families": ["grid", "grid", "chain"], "label_kinds": ("str", "str", "int")} if tie else
                                       {"label_kinds": ("str", "int")},
